@@ -12,7 +12,7 @@ VARIABLES kl, nOld, srt, walls, pc, res
 vars == <<kl, nOld, srt, walls, pc, res>>
 
 gx == [n |-> <<2, 2, 1>>, nd |-> <<2, 2, 1>>, L |-> 1]          \* fine lattice 8 x 8 x 2
-Gx == GroupOf("tet_C4v")
+Gx == TLCEval(GroupOf("tet_C4v"))
 (* (1,3),(5,1),(7,3) lie on one orbit of eight points, (1,1),(7,7) on an orbit of four, (4,0),(0,4) are two images of
    a coarse grid point; the last kind has the coordinates of the first one on another refinement level *)
 KindTable == << KPt(<<1, 3, 0>>, 1, 0), KPt(<<5, 1, 0>>, 1, 0), KPt(<<1, 1, 0>>, 1, 0), KPt(<<4, 0, 0>>, 0, 0),
